@@ -23,12 +23,14 @@ type C07Params struct {
 	Pos      int         `json:"pos"`      // cancel once the target has produced this many events
 	Others   []*CallSpec `json:"others"`
 	WYield   bool        `json:"wyield,omitempty"` // scheduling point at the entry of the client's transport writes
+	Ambig    bool        `json:"ambig,omitempty"`  // the client's transport reports a write cut short by its context as failed although the envelope was delivered
 }
 
 func genC07(g *rand.Rand, tier string) any {
 	p := &C07Params{}
 	p.Links = drawLinks(g, 2)
 	p.WYield = g.IntN(2) == 0
+	p.Ambig = g.IntN(4) == 0
 	for i := range p.Links {
 		// properties about "returns once its context is done" presuppose a
 		// transport that honours contexts: strict or racy, never deaf
@@ -162,6 +164,7 @@ func execC07(e *Env, pp any) {
 	net := Build(e, TopoSpec{Kind: TopoDirect, Clients: 1, Links: p.Links}, srv, nil)
 	cin := net.CEnds[0].In
 	net.CEnds[0].Out.PreWriteYield = p.WYield
+	net.CEnds[0].Out.AmbiguousCancel = p.Ambig
 	trailerReadEv := 0
 	cin.OnRead(func(n int, r *Rpc) {
 		if r.GetTrailer() != nil && callOfWireID(net, r.GetId()) == p.Target.ID && trailerReadEv == 0 {
